@@ -424,6 +424,7 @@ struct Psar {
 	prev: TC,
 	prev_trend: i8,
 	lost: bool,
+	mag: f64,
 }
 impl RefInd for Psar {
 	fn next(&mut self, c: &TC) -> (Vec<T>, Vec<Sig>) {
@@ -431,7 +432,8 @@ impl RefInd for Psar {
 			return (vec![T::UND, T::UND], vec![Sig::Unknown]);
 		}
 		let (h, l) = (c[1].v, c[2].v);
-		let near = |a: f64, b: f64| (a - b).abs() <= 256.0 * U * a.abs().max(b.abs());
+		let mag = self.mag;
+		let near = move |a: f64, b: f64| (a - b).abs() <= 256.0 * U * a.abs().max(b.abs()).max(mag);
 		if self.trend > 0 {
 			if self.high < h {
 				self.high = h;
@@ -474,7 +476,9 @@ impl RefInd for Psar {
 		self.prev = *c;
 		let signal = if self.prev_trend != trend { trend } else { 0 };
 		self.prev_trend = trend;
-		(vec![T::new(sar, 64.0 * U * sar.abs()), T::exact(f64::from(trend))], vec![i8sig(Some(signal))])
+		// sar' = sar + af * (ep - sar): the rounding lives at the scale of the extreme points of the history
+		self.mag = self.mag.max(h.abs());
+		(vec![T::new(sar, 64.0 * U * self.mag), T::exact(f64::from(trend))], vec![i8sig(Some(signal))])
 	}
 }
 
@@ -1025,6 +1029,7 @@ pub fn make_refind2(name: &str, cfg: &Value, first: &TC) -> Option<Box<dyn RefIn
 			prev: c0,
 			prev_trend: 0,
 			lost: false,
+			mag: c0[1].v.abs(),
 		}),
 		"PivotReversalStrategy" => {
 			let (l, r) = (cu(cfg, "left"), cu(cfg, "right"));
